@@ -616,6 +616,11 @@ class Resolver:
                 pass
         if out:
             return out
+        if ft and all(a[0] == 'none' for a in ft) and \
+                isinstance(f, ast.Name):
+            # a local that can only hold None (e.g. the side-effect slot of
+            # a table whose entries all carry None)
+            return [Target('none', name=f.id)]
         if isinstance(f, ast.Attribute):
             bt = self.type_of(f.value, fi)
             # inherited method from an external base class
